@@ -17,6 +17,8 @@
 import GunYu.Model.StoreFs
 import GunYu.Proofs.StoreFs
 import GunYu.Proofs.StoreFsTrue
+import GunYu.Proofs.StoreFsSnap
+import GunYu.Proofs.StoreFsBridge
 
 namespace GunYu.Props.C08
 open GunYu GunYu.Store GunYu.StoreFs
@@ -108,6 +110,94 @@ theorem crash_snapshot_complete (l m : Nat) (ops : List DOp) (hwf : (Disk.init l
   obtain ⟨⟨content, hmem⟩, _⟩ := tmp_snapshot_not_offered img L S h
   obtain ⟨c', hget, hmem'⟩ := get_some_of_mem hmem
   exact ⟨c', hget, crashImage_rdbLenOk l m ops hwf n k _ hmem' L S rfl⟩
+
+/-- **ghost_matches_index.** The ghost `received` — every byte handed to the snapshot
+    writer since it was created, computed from the operation list alone — agrees with
+    the index after every script: the snapshot the index holds is the one announced,
+    with exactly the bytes received, and it is `writing` exactly while receiving. -/
+theorem ghost_matches_index (l m : Nat) (ops : List DOp) (hwf : (Disk.init l m).wf ops) :
+    let s := (Disk.init l m).run ops
+    ∀ r, s.rdb = some r → received ops = some ⟨r.left, r.size, r.data, r.writing⟩ ∧ 0 < r.size := by
+  intro s
+  have key : ∀ (rest pre : List DOp) (s0 : Disk), s0.wf rest → GInv s0 (recvRun pre) →
+      GInv (s0.run rest) (recvRun (pre ++ rest)) := by
+    intro rest
+    induction rest with
+    | nil => intro pre s0 _ hg; simpa [Disk.run] using hg
+    | cons op rest ih =>
+      intro pre s0 hwf0 hg
+      have := ih (pre ++ [op]) _ hwf0.2 (by rw [recvRun_snoc]; exact ginv_step s0 _ op hg hwf0.1)
+      simpa [Disk.run] using this
+  have := key ops [] _ hwf (GInv.init l m)
+  simp only [List.nil_append] at this
+  exact this.held
+
+/-- **crash_snapshot_true.** For EVERY script of the writers respecting the callers'
+    protocol, at EVERY instant the process may die (`n` file operations issued, the
+    last one — if an append — torn after `k` bytes): a snapshot that the re-opened
+    cache OFFERS is a committed file that holds exactly the bytes a snapshot writer
+    of the script RECEIVED for that announcement — in order, complete (`size`
+    bytes, the writer had seen them all: `receiving = false`) — at some point `j` of
+    the script. The monitor `snapshot-bytes-wrong` is the tie of this theorem to the
+    real writers. -/
+theorem crash_snapshot_true (l m : Nat) (ops : List DOp) (hwf : (Disk.init l m).wf ops) (n k L S : Nat) :
+    let img := crashImage [] (scriptOps (Disk.init l m) ops) n k
+    (reopen img).rdb = some (L, S) →
+      ∃ c, img.get (rdbName L S) = some c ∧ 0 < S ∧ c.length = S ∧
+        ∃ j, j ≤ ops.length ∧ received (ops.take j) = some ⟨L, S, c, false⟩ := by
+  intro img h
+  obtain ⟨⟨content, hmem⟩, _⟩ := tmp_snapshot_not_offered img L S h
+  obtain ⟨c', hget, hmem'⟩ := get_some_of_mem hmem
+  exact ⟨c', hget, crashImage_received l m ops hwf n k _ hmem' L S rfl⟩
+
+/-! ### the bridge to C06
+
+  C06's theorems take a cache description `c : Psync.Cache` with the hypotheses
+  `CacheWF c` and `CacheOK w c d` ("what C05/C08 provide"). `cacheOf id (reopen fs)`
+  is the description of a re-opened directory labelled `id`; the theorems below
+  provide both hypotheses, so C06's theorems apply to whatever survives a crash.
+  (Definitions imported from Model/Psync.lean.) -/
+
+/-- **reopen_cache_wf.** For ANY directory image the re-opened cache is well formed
+    in C06's sense; the side conditions are what the model cannot see (offsets are
+    int64) or does not constrain for arbitrary images (a positive announced size). -/
+theorem reopen_cache_wf (fs : FS) (id : Psync.Id) (hid1 : id ≠ []) (hid2 : id ≠ Psync.qId)
+    (h64 : ∀ r, lastRight (reopen fs).segs = some r → (r : Int) ≤ Psync.maxInt64)
+    (hrdb : ∀ L S, (reopen fs).rdb = some (L, S) → 0 < S ∧ (L : Int) ≤ Psync.maxInt64) :
+    Psync.CacheWF (cacheOf id (reopen fs)) :=
+  reopen_cacheWF fs id hid1 hid2 h64 hrdb
+
+/-- **reopened_cache_wf.** For every script of the writers and every crash instant
+    the positive size is discharged (`crash_snapshot_true`): the re-opened cache
+    satisfies C06's `CacheWF` as soon as the offsets are int64. -/
+theorem reopened_cache_wf (l m : Nat) (ops : List DOp) (hwf : (Disk.init l m).wf ops) (n k : Nat)
+    (id : Psync.Id) (hid1 : id ≠ []) (hid2 : id ≠ Psync.qId) :
+    let img := crashImage [] (scriptOps (Disk.init l m) ops) n k
+    (∀ r, lastRight (reopen img).segs = some r → (r : Int) ≤ Psync.maxInt64) →
+    (∀ L S, (reopen img).rdb = some (L, S) → (L : Int) ≤ Psync.maxInt64) →
+      Psync.CacheWF (cacheOf id (reopen img)) := by
+  intro img h64 hL
+  apply reopen_cacheWF img id hid1 hid2 h64
+  intro L S h
+  obtain ⟨_, _, hpos, _⟩ := crash_snapshot_true l m ops hwf n k L S h
+  exact ⟨hpos, hL L S h⟩
+
+/-- **reopened_cache_holds.** … and the content: if the chunks the script appends are
+    history `id`'s bytes at the offsets they are appended at (`SrcOk`), the re-opened
+    cache `Holds` history `id` in C06's sense (the log bytes on the range held are
+    `w.hist id`; the snapshot is filed under its offset), whatever the crash instant … -/
+theorem reopened_cache_holds (w : Psync.World) (id : Psync.Id) (l m : Nat) (ops : List DOp)
+    (hwf : (Disk.init l m).wf ops) (hsrc : SrcOk (fun k => w.hist id (k : Int)) (Disk.init l m) ops) (n k : Nat) :
+    let img := crashImage [] (scriptOps (Disk.init l m) ops) n k
+    Psync.Holds w id (cacheOf id (reopen img)) (dataOf id (reopen img)) :=
+  reopen_holds w _ id (crashImage_true _ l m ops hwf hsrc n k)
+
+/-- **reopened_cache_ok.** … hence C06's `CacheOK` against any source. -/
+theorem reopened_cache_ok (w : Psync.World) (src : Psync.Source) (id : Psync.Id) (l m : Nat) (ops : List DOp)
+    (hwf : (Disk.init l m).wf ops) (hsrc : SrcOk (fun k => w.hist id (k : Int)) (Disk.init l m) ops) (n k : Nat) :
+    let img := crashImage [] (scriptOps (Disk.init l m) ops) n k
+    Psync.CacheOK w src (cacheOf id (reopen img)) (dataOf id (reopen img)) :=
+  reopen_cacheOK w src _ id (crashImage_true _ l m ops hwf hsrc n k)
 
 /-- **reopen_bytes_true.** If every stream file holds (after its header) bytes of
     the source at the file's offsets, then whatever a reader opened at `off`
@@ -313,6 +403,19 @@ def exScript : List DOp := [.setRunId "id", .newRdbWriter 500 3, .rdbAppend [1, 
 example : (Disk.init 32 0).wf exScript := by decide
 example : (reopen (crashImage [] (scriptOps (Disk.init 32 0) exScript) 4 0)).rdb = some (500, 3) := by decide
 example : (reopen (crashImage [] (scriptOps (Disk.init 32 0) exScript) 3 0)).rdb = none := by decide
+-- the ghost: bytes received by the snapshot writer, at the points of the script
+example : received (exScript.take 3) = some ⟨500, 3, [1, 2], true⟩ := by decide
+example : received (exScript.take 4) = some ⟨500, 3, [1, 2, 3], false⟩ := by decide
+-- a crash in the middle of the snapshot write (only the temporary file, with 2 of 3 bytes):
+-- the re-opened store discards it
+example : (crashImage [] (scriptOps (Disk.init 32 0) exScript) 2 2) = [(rdbTmpName 500 3, [1, 2])] := by decide
+example : (reopen (crashImage [] (scriptOps (Disk.init 32 0) exScript) 2 2)).rdb = none := by decide
+-- a crash after the commit: the snapshot is kept and the file holds exactly the bytes received
+example : (reopen (crashImage [] (scriptOps (Disk.init 32 0) exScript) 4 0)).rdb = some (500, 3) ∧
+    (crashImage [] (scriptOps (Disk.init 32 0) exScript) 4 0).get (rdbName 500 3) = some [1, 2, 3] := by decide
+-- the description C06 reasons about, for the final image (snapshot at 500, log [500, 501])
+example : cacheOf [7] (reopen (crashImage [] (scriptOps (Disk.init 32 0) exScript) 99 1)) =
+    ⟨.disk, [7], some (500, 3), some (500, 501)⟩ := by decide
 -- a closed segment verifies; a flipped data byte does not
 example : segVerifyOk (closedHeader [1, 2, 3] ++ [1, 2, 3]) = true := by decide +kernel
 example : segVerifyOk (closedHeader [1, 2, 3] ++ [1, 2, 7]) = false := by decide +kernel
